@@ -365,6 +365,9 @@ func (e *Engine) ghostField(pkg, name string, base Value) *GhostDecl {
 			}
 		}
 		return nil
+	case StructV:
+		// a struct value has only its real fields
+		return nil
 	case Scalar:
 		bt = b.Typ
 	case PlaceV:
@@ -881,6 +884,11 @@ func (e *Engine) callMod(ms *ModSet, caller *ssa.Function, c *ssa.CallCommon) {
 		con := e.ifaceContract(c)
 		if con != nil {
 			e.contractMod(ms, con, nil, fnPkgPath(caller))
+			for _, p := range con.Assigns {
+				if p == "reachable" {
+					e.externalMod(ms, c)
+				}
+			}
 			return
 		}
 		_, full := calleeNames(c)
@@ -927,6 +935,11 @@ func (e *Engine) callMod(ms *ModSet, caller *ssa.Function, c *ssa.CallCommon) {
 		if !e.inRepo(v) {
 			if con := e.contractForCall(v, c); con != nil {
 				e.contractMod(ms, con, v, fnPkgPath(caller))
+				for _, p := range con.Assigns {
+					if p == "reachable" {
+						e.externalMod(ms, c)
+					}
+				}
 				return
 			}
 		}
@@ -1034,6 +1047,10 @@ func (e *Engine) contractMod(ms *ModSet, con *Contract, fn *ssa.Function, caller
 		for _, p := range con.Assigns {
 			if p == "all" {
 				ms.all = true
+				continue
+			}
+			if p == "reachable" {
+				// whatever is reachable (by type) from the call's arguments; needs the call: handled by the caller
 				continue
 			}
 			if strings.Contains(p, "!") {
